@@ -135,7 +135,7 @@ func init() {
 		in := m.path.NewInput(argStr(m, args[0]), "len", SBV(64))
 		in.Lo, in.Hi = lo, hi
 		m.path.assert(And(BVCmp(OpBVSle, BV(64, uint64(lo)), in.T), BVCmp(OpBVSle, in.T, BV(64, uint64(hi)))))
-		return BV(64, m.path.Concretize(in.T))
+		return BV(64, m.concretize(in.T))
 	})
 	reg(vrtPath+".Choice", func(m *Machine, fr *frame, args []Value) Value {
 		n := m.concInt(args[1])
